@@ -9,7 +9,6 @@ def c03fnv16 (h : Nat) (v : Int) : Nat :=
   ((h ^^^ (u / 256)) * 1099511628211) % 18446744073709551616
 
 def t81Line (r : Result) : String :=
-  if r.arith then "skip arith" else
   let f := r.frame
   let per := f.comps.zip r.coefs |>.map (fun (c, (wb, hb, a)) =>
     let hq := match r.qt.getD c.tq none with
@@ -17,7 +16,7 @@ def t81Line (r : Result) : String :=
       | none => 14695981039346656037
     let h := a.foldl c03fnv16 14695981039346656037
     s!"{c.h}{c.v} q{hq} {wb}x{hb} {h}")
-  s!"ok P{f.prec} {f.width}x{f.height} nc{f.comps.length} prog{if f.sof == 0xC2 then 1 else 0} ri{r.ri} scans{r.nscans} | " ++ " ".intercalate per ++ " w0"
+  s!"ok P{f.prec} {f.width}x{f.height} nc{f.comps.length} prog{if f.sof == 0xC2 || f.sof == 0xCA then 1 else 0} ri{r.ri} scans{r.nscans} | " ++ " ".intercalate per ++ " w0"
 
 def opC03 : List String → Option String
   | ["t81", hex] => do
